@@ -95,6 +95,7 @@ def gen_cases(ck):
 
 def run(ck):
     ck.prepare_lean()
+    ck.run_corpus(oracle)
     cases = gen_cases(ck)
     res = [r for part in pool_map(_impl_chunk, list(chunks(cases, 4000))) for r in part]
     enc_req, dec_req = [], []
